@@ -309,7 +309,23 @@ class CallMixin(object):
         if name == "dict":
             return self.make_dict(st, args, kwargs, False, node, module)
         if name in ("enumerate", "zip", "range", "reversed"):
-            return self.alloc(st, ListObj(self.iter_builtin(st, name, args, node, module)))
+            lo = ListObj(self.iter_builtin(st, name, args, node, module))
+            lo.one_shot = name in ("enumerate", "zip", "reversed")
+            return self.alloc(st, lo)
+        if name in ("map", "filter"):
+            fnv = args[0]
+            items = self.iter_values(st, args[1], node, module)
+            out = []
+            for g, v in items:
+                r = self.call(st, fnv, [v], {}, node, module) if not (isinstance(fnv, Const) and fnv.v is None) else v
+                if name == "map":
+                    out.append((g, r))
+                else:
+                    out.append((mk_and([g, self.truth(st, r, node)]), v))
+            lo = ListObj(out)
+            lo.one_shot = True  # an iterator on Python 3, a list on Python 2
+            self.event("lazy_iterator", node, module, st, what="%s() result" % name, list=None)
+            return self.alloc(st, lo)
         if name == "print":
             self.event("print", node, module, st)
             return Const(None)
@@ -714,6 +730,19 @@ class CallMixin(object):
             return Const(None)
         if name == "copy":
             return self.alloc(st, o.copy())
+        if o.kind == "set" and name in ("difference", "intersection", "union") and len(args) == 1:
+            other = args[0]
+            out = []
+            if name == "union":
+                out = list(o.items) + self.iter_values(st, other, node, module)
+            else:
+                for g, v in o.items:
+                    c = self.contains(st, other, v, node, module)
+                    out.append((mk_and([g, mk_not(c) if name == "difference" else c]), v))
+            lo = ListObj(out)
+            lo.kind = "set"
+            lo.hash_ordered = True
+            return self.alloc(st, lo)
         raise AnalysisError("E5.call", "list method %s" % name, node, module)
 
     # ------------------------------------------------------------------ iteration
@@ -735,6 +764,12 @@ class CallMixin(object):
             if o.kind in ("list", "set"):
                 if getattr(o, "havoc", False):
                     raise NonStatic("E5.loop", "iteration over a list with statically unknown contents", node, module)
+                if getattr(o, "one_shot", False):
+                    # consuming an iterator is a state change of that object (Python 3)
+                    self.event("iterator_consumed", node, module, st, list=v.id)
+                    items_ = list(o.items)
+                    o.items = []
+                    return items_
                 if getattr(o, "hash_ordered", False):
                     self.event("hash_order_flow", node, module, st, what="iteration over a set")
                 return list(o.items)
@@ -1305,6 +1340,9 @@ class StmtMixin(object):
             o = ListObj()
             o.kind = a.kind
             o.hash_ordered = a.hash_ordered or b.hash_ordered
+            for attr_ in ("one_shot", "havoc"):
+                if getattr(a, attr_, False) or getattr(b, attr_, False):
+                    setattr(o, attr_, True)
             n = 0
             while n < len(a.items) and n < len(b.items) and same(a.items[n][0], b.items[n][0]) and same(
                 a.items[n][1], b.items[n][1]
